@@ -26,7 +26,7 @@ RULE = ("string level: one case = one input string of one function; exhaustive w
         "random token soups, generated/mutated/unbalanced type strings, all prefixes of the fixed-offset tags; 9 naming rules x names and 8 variant rules x variant names. "
         "Non-trivial = the input contains a non-ASCII byte or a delimiter the function searches for. "
         "project level: one case = one source tree; generated exotic items, corpus files (plain, commandified, truncated, mutated), non-Rust text, "
-        "degenerate trees (empty, only non-.rs files, only target/ and .git content, directories named *.rs, empty / comment-only / unparsable / non-UTF-8 files only, zero commands, events only) x every setting x CLI, analyze_project_with_verbose, generate_from_config and BuildSystem; spellings of the project / output path (trailing and doubled slashes, ./, .. segments, relative / absolute) x top-level names starting with a non-ASCII character on the cache-using entry points (with --force, and twice without); string literals with escape-looking text after an escaped backslash beside real escapes (validator messages, rename values, event names; string level against the model and project level); naming configuration (default_field_case / default_parameter_case: 8 convention names + unknown values) x hostile identifiers by tauri.conf.json, library config and BuildSystem, also at string level (default:<value> rules against the model default_case_b); project size 19..100 types/commands/events (dag, cyclic, chain; 70-field structs; one or many files) in both modes; every project stream crossed with the optional output-producing settings (verbose, visualize_deps, include_private, exclude patterns; by flag and by tauri.conf.json) and the three entry points (CLI, generate_from_config, BuildSystem), each in its own process; a multi-byte character swept over every byte offset 0..80 of type texts, names, literals and paths; recursive and mutually recursive serde type graphs (every digraph on 3 named types with rotating root sets and containers, random 4-7 node graphs, wide/deep acyclic graphs, long rings) in both modes with exit status / signal / time limit as oracle, bounded deep nesting; isolation = base project with and without unparsable (or non-UTF-8) files. distinct = distinct inputs")
+        "degenerate trees (empty, only non-.rs files, only target/ and .git content, directories named *.rs, empty / comment-only / unparsable / non-UTF-8 files only, zero commands, events only) x every setting x CLI, analyze_project_with_verbose, generate_from_config and BuildSystem; spellings of the project / output path (trailing and doubled slashes, ./, .. segments, relative / absolute) x top-level names starting with a non-ASCII character on the cache-using entry points (with --force, and twice without); string literals with escape-looking text after an escaped backslash beside real escapes (validator messages, rename values, event names; string level against the model and project level); naming configuration (default_field_case / default_parameter_case: 8 convention names + unknown values) x hostile identifiers by tauri.conf.json, library config and BuildSystem, also at string level (default:<value> rules against the model default_case_b); project size 19..100 types/commands/events (dag, cyclic, chain; 70-field structs; one or many files) in both modes; every project stream crossed with the optional output-producing settings (verbose, visualize_deps, include_private, exclude patterns; by flag and by tauri.conf.json) and the three entry points (CLI, generate_from_config, BuildSystem), each in its own process; a multi-byte character swept over every byte offset 0..80 of type texts, names, literals and paths; recursive and mutually recursive serde type graphs (every digraph on 3 named types with rotating root sets and containers, random 4-7 node graphs, wide/deep acyclic graphs, long rings) in both modes with exit status / signal / time limit as oracle, bounded deep nesting; project states whose generation-cache hash TEXT is extreme (10-15 hex digits = leading zero nibbles of the unpadded {:x} text, in the combined hash and in the command / struct / event component hashes; names found by a counter search through the public GenerationCache API, table re-verified and re-searched on every run) through the cache-reading entry points (CLI twice without --force by flags and by tauri.conf.json, build script twice); isolation = base project with and without unparsable (or non-UTF-8) files. distinct = distinct inputs")
 TRUSTED = [
     "python transcription of Rust's str::parse::<u64>/<f64> grammar (value of min/max only; not needed for panic-freedom)",
     "the token string handed to the attribute scanners is computed by the harness exactly as the code computes it (MetaList.tokens.to_string())",
